@@ -501,9 +501,11 @@ int
 Tiff::stop() noexcept
 {
     if (state == DeviceState_Running) {
+        // Leave the running state first: when the write in
+        // terminate_ifd_list() fails, write_() calls stop() again.
+        state = DeviceState_Armed;
         terminate_ifd_list();
         file_close(&file_);
-        state = DeviceState_Armed;
         frame_count_ = 0;
         LOG("TIFF: Writer stop");
     }
